@@ -60,4 +60,707 @@ theorem copyInto_get (dst : List Nat) (k : Nat) (src : List Nat) (j : Nat) (hk :
       have e2 : min n src.length = n := by omega
       rw [e1, e2]; congr 1; omega
 
+/-- One past the last offset covered by a chain of `l.length` chunks starting at `o`. -/
+def cend (o : Int) (c : Nat) (l : List Buf) : Int := o + c * l.length
+
+theorem cend_nil (o : Int) (c : Nat) : cend o c [] = o := by simp [cend]
+
+theorem cend_cons (o : Int) (c : Nat) (pb : Buf) (l : List Buf) :
+    cend o c (pb :: l) = cend (o + c) c l := by
+  simp only [cend, List.length_cons]
+  push_cast
+  rw [Int.mul_add]
+  omega
+
+theorem cend_ge (o : Int) (c : Nat) (l : List Buf) : o ≤ cend o c l := by
+  have : (0 : Int) ≤ (c : Int) * (l.length : Int) := Int.mul_nonneg (by omega) (by omega)
+  simp only [cend]; omega
+
+theorem byteAt_in (o : Int) (b : List Nat) (rest : List Buf) (x : Int)
+    (h : o ≤ x ∧ x < o + (b.length : Int)) :
+    byteAt (⟨o, b⟩ :: rest) x = b[(x - o).toNat]? := by
+  simp [byteAt, Buf.stop, h]
+
+theorem byteAt_out (o : Int) (b : List Nat) (rest : List Buf) (x : Int)
+    (h : ¬ (o ≤ x ∧ x < o + (b.length : Int))) :
+    byteAt (⟨o, b⟩ :: rest) x = byteAt rest x := by
+  simp [byteAt, Buf.stop, h]
+
+/-- The allocation part of the `writeAt` loop: a contiguous chain of fresh chunks that
+reaches the end of the data and holds the data at its offsets. -/
+theorem extend_spec (c : Nat) (hc : 0 < c) : ∀ (fuel : Nat) (o : Int) (b : List Nat) (off : Int),
+    o ≤ off → (off - o).toNat + b.length + 1 ≤ fuel →
+    Cont c o (extend c fuel o b off) ∧ extend c fuel o b off ≠ [] ∧
+    off + b.length ≤ cend o c (extend c fuel o b off) ∧
+    ∀ x, off ≤ x → x < off + b.length → byteAt (extend c fuel o b off) x = b[(x - off).toNat]? := by
+  intro fuel
+  induction fuel with
+  | zero => intro o b off _ h; omega
+  | succ fuel ih =>
+    intro o b off ho hf
+    unfold extend
+    by_cases h1 : off - o < (c : Int)
+    · simp only [h1, if_true]
+      have hk : (off - o).toNat ≤ (List.replicate c 0).length := by simp; omega
+      have hlen := copyInto_length (List.replicate c 0) (off - o).toNat b hk
+      have hget := fun j => copyInto_get (List.replicate c 0) (off - o).toNat b j hk
+      have hn := copyInto_snd (List.replicate c 0) (off - o).toNat b
+      generalize copyInto (List.replicate c 0) (off - o).toNat b = r at hlen hget hn
+      simp only [List.length_replicate] at hlen hn
+      by_cases h2 : r.2 = b.length
+      · simp only [h2, if_true]
+        refine ⟨⟨rfl, hlen, trivial⟩, by simp, ?_, ?_⟩
+        · rw [cend_cons, cend_nil]; omega
+        · intro x hx1 hx2
+          have : o ≤ x ∧ x < o + (r.1.length : Int) := by rw [hlen]; omega
+          rw [byteAt_in _ _ _ _ this, hget, if_pos (by omega)]
+          congr 1; omega
+      · simp only [h2, if_false]
+        have hn' : r.2 = c - (off - o).toNat := by omega
+        have e1 : off + (r.2 : Int) = o + c := by omega
+        obtain ⟨i1, i2, i3, i4⟩ := ih (o + c) (b.drop r.2) (off + r.2) (by omega)
+          (by simp only [List.length_drop]; omega)
+        refine ⟨⟨rfl, hlen, i1⟩, by simp, ?_, ?_⟩
+        · rw [cend_cons]; simp only [List.length_drop] at i3; omega
+        · intro x hx1 hx2
+          by_cases hx : x < o + c
+          · have : o ≤ x ∧ x < o + (r.1.length : Int) := by rw [hlen]; omega
+            rw [byteAt_in _ _ _ _ this, hget, if_pos (by omega)]
+            congr 1; omega
+          · have : ¬ (o ≤ x ∧ x < o + (r.1.length : Int)) := by rw [hlen]; omega
+            rw [byteAt_out _ _ _ _ this, i4 x (by omega) (by simp only [List.length_drop]; omega), List.getElem?_drop]
+            congr 1; omega
+    · simp only [h1, if_false]
+      obtain ⟨i1, i2, i3, i4⟩ := ih (o + c) b off (by omega) (by omega)
+      refine ⟨⟨rfl, by simp [newBuf], i1⟩, by simp, ?_, ?_⟩
+      · rw [cend_cons]; exact i3
+      · intro x hx1 hx2
+        have : ¬ (o ≤ x ∧ x < o + ((List.replicate c 0).length : Int)) := by
+          simp only [List.length_replicate]; omega
+        simp only [newBuf]
+        rw [byteAt_out _ _ _ _ this]; exact i4 x hx1 hx2
+
+/-- What one run of the `writeAt` loop over a contiguous chain achieves. -/
+def WriteOK (c : Nat) (o : Int) (bufs : List Buf) (b : List Nat) (off : Int) (l : List Buf) : Prop :=
+  Cont c o l ∧ l ≠ [] ∧ cend o c bufs ≤ cend o c l ∧ off + b.length ≤ cend o c l ∧
+  (∀ x, off ≤ x → x < off + b.length → byteAt l x = b[(x - off).toNat]?) ∧
+  (∀ x v, ¬ (off ≤ x ∧ x < off + b.length) → byteAt bufs x = some v → byteAt l x = some v)
+
+theorem writeBufs_spec (c : Nat) (hc : 0 < c) : ∀ (bufs : List Buf) (o : Int) (b : List Nat) (off : Int),
+    Cont c o bufs → bufs ≠ [] → o ≤ off →
+    ∃ l, writeBufs c bufs b off = some l ∧ WriteOK c o bufs b off l := by
+  intro bufs
+  induction bufs with
+  | nil => intro o b off _ h; exact absurd rfl h
+  | cons pb rest ih =>
+    intro o b off hcont _ ho
+    obtain ⟨hoff, hlenb, hrest⟩ := hcont
+    obtain ⟨po, pbb⟩ := pb
+    simp only at hoff hlenb
+    subst hoff
+    subst hlenb
+    unfold writeBufs
+    simp only [Buf.stop]
+    by_cases h1 : off - po < (pbb.length : Int)
+    · have h0 : ¬ (off - po < 0) := by omega
+      simp only [h1, h0, if_true, if_false]
+      have hk : (off - po).toNat ≤ pbb.length := by omega
+      have hlen := copyInto_length pbb (off - po).toNat b hk
+      have hget := fun j => copyInto_get pbb (off - po).toNat b j hk
+      have hn := copyInto_snd pbb (off - po).toNat b
+      generalize copyInto pbb (off - po).toNat b = r at hlen hget hn
+      -- facts about the chunk just written
+      have inchunk : ∀ x, off ≤ x → x < off + b.length → x < po + (pbb.length : Int) → ∀ tl,
+          byteAt (⟨po, r.1⟩ :: tl) x = b[(x - off).toNat]? := by
+        intro x hx1 hx2 hx3 tl
+        have : po ≤ x ∧ x < po + (r.1.length : Int) := by omega
+        rw [byteAt_in _ _ _ _ this, hget, if_pos (by omega)]
+        congr 1; omega
+      have keep : ∀ x v tl tl', ¬ (off ≤ x ∧ x < off + b.length) →
+          (∀ v, byteAt tl x = some v → byteAt tl' x = some v) →
+          byteAt (⟨po, pbb⟩ :: tl) x = some v → byteAt (⟨po, r.1⟩ :: tl') x = some v := by
+        intro x v tl tl' hx htl hv
+        by_cases hin : po ≤ x ∧ x < po + (pbb.length : Int)
+        · rw [byteAt_in _ _ _ _ hin] at hv
+          have : po ≤ x ∧ x < po + (r.1.length : Int) := by omega
+          rw [byteAt_in _ _ _ _ this, hget, if_neg (by omega)]; exact hv
+        · rw [byteAt_out _ _ _ _ hin] at hv
+          have : ¬ (po ≤ x ∧ x < po + (r.1.length : Int)) := by omega
+          rw [byteAt_out _ _ _ _ this]; exact htl v hv
+      by_cases h2 : r.2 = b.length
+      · simp only [h2, if_true]
+        refine ⟨_, rfl, ⟨rfl, hlen, hrest⟩, by simp, ?_, ?_, ?_, ?_⟩
+        · rw [cend_cons, cend_cons]; omega
+        · rw [cend_cons]; have := cend_ge (po + (pbb.length : Int)) pbb.length rest; omega
+        · intro x hx1 hx2; exact inchunk x hx1 hx2 (by omega) rest
+        · intro x v hx hv; exact keep x v rest rest hx (fun _ h => h) hv
+      · simp only [h2, if_false]
+        have e1 : off + (r.2 : Int) = po + (pbb.length : Int) := by omega
+        cases rest with
+        | nil =>
+          simp only
+          obtain ⟨i1, i2, i3, i4⟩ := extend_spec _ hc
+            ((off + (r.2 : Int) - (po + (pbb.length : Int))).toNat + (b.drop r.2).length + 1)
+            (po + (pbb.length : Int)) (b.drop r.2) (off + r.2) (by omega) (by omega)
+          refine ⟨_, rfl, ⟨rfl, hlen, i1⟩, by simp, ?_, ?_, ?_, ?_⟩
+          · rw [cend_cons, cend_cons, cend_nil]; exact cend_ge _ _ _
+          · rw [cend_cons]; have hd : (b.drop r.2).length = b.length - r.2 := List.length_drop; omega
+          · intro x hx1 hx2
+            by_cases hx : x < po + (pbb.length : Int)
+            · exact inchunk x hx1 hx2 hx _
+            · have : ¬ (po ≤ x ∧ x < po + (r.1.length : Int)) := by omega
+              rw [byteAt_out _ _ _ _ this, i4 x (by omega) (by simp only [List.length_drop]; omega),
+                List.getElem?_drop]
+              congr 1; omega
+          · intro x v hx hv
+            exact keep x v [] _ hx (fun v h => by simp [byteAt] at h) hv
+        | cons q rest' =>
+          simp only
+          obtain ⟨l', e, j1, j2, j3, j4, j5, j6⟩ := ih (po + (pbb.length : Int)) (b.drop r.2) (off + r.2) hrest (by simp) (by omega)
+          rw [e]; simp only [Option.map_some]
+          refine ⟨_, rfl, ⟨rfl, hlen, j1⟩, by simp, ?_, ?_, ?_, ?_⟩
+          · rw [cend_cons po, cend_cons po]; exact j3
+          · rw [cend_cons]; have hd : (b.drop r.2).length = b.length - r.2 := List.length_drop; omega
+          · intro x hx1 hx2
+            by_cases hx : x < po + (pbb.length : Int)
+            · exact inchunk x hx1 hx2 hx _
+            · have : ¬ (po ≤ x ∧ x < po + (r.1.length : Int)) := by omega
+              rw [byteAt_out _ _ _ _ this, j5 x (by omega) (by simp only [List.length_drop]; omega),
+                List.getElem?_drop]
+              congr 1; omega
+          · intro x v hx hv
+            refine keep x v (q :: rest') l' hx (fun v h => j6 x v ?_ h) hv
+            simp only [List.length_drop]; omega
+    · simp only [h1, if_false]
+      have skip : ∀ x tl, off ≤ x → byteAt (⟨po, pbb⟩ :: tl) x = byteAt tl x := by
+        intro x tl hx
+        exact byteAt_out _ _ _ _ (by omega)
+      have keep : ∀ x v tl tl', (∀ v, byteAt tl x = some v → byteAt tl' x = some v) →
+          byteAt (⟨po, pbb⟩ :: tl) x = some v → byteAt (⟨po, pbb⟩ :: tl') x = some v := by
+        intro x v tl tl' htl hv
+        by_cases hin : po ≤ x ∧ x < po + (pbb.length : Int)
+        · rw [byteAt_in _ _ _ _ hin] at hv ⊢; exact hv
+        · rw [byteAt_out _ _ _ _ hin] at hv ⊢; exact htl v hv
+      cases rest with
+      | nil =>
+        simp only
+        obtain ⟨i1, i2, i3, i4⟩ := extend_spec _ hc
+          ((off - (po + (pbb.length : Int))).toNat + b.length + 1)
+          (po + (pbb.length : Int)) b off (by omega) (by omega)
+        refine ⟨_, rfl, ⟨rfl, rfl, i1⟩, by simp, ?_, ?_, ?_, ?_⟩
+        · rw [cend_cons, cend_cons, cend_nil]; exact cend_ge _ _ _
+        · rw [cend_cons]; exact i3
+        · intro x hx1 hx2; rw [skip x _ hx1]; exact i4 x hx1 hx2
+        · intro x v _ hv; exact keep x v [] _ (fun v h => by simp [byteAt] at h) hv
+      | cons q rest' =>
+        simp only
+        obtain ⟨l', e, j1, j2, j3, j4, j5, j6⟩ := ih (po + (pbb.length : Int)) b off hrest (by simp) (by omega)
+        rw [e]; simp only [Option.map_some]
+        refine ⟨_, rfl, ⟨rfl, rfl, j1⟩, by simp, ?_, ?_, ?_, ?_⟩
+        · rw [cend_cons po, cend_cons po]; exact j3
+        · rw [cend_cons]; exact j4
+        · intro x hx1 hx2; rw [skip x _ hx1]; exact j5 x hx1 hx2
+        · intro x v hx hv; exact keep x v (q :: rest') l' (fun v h => j6 x v hx h) hv
+
+theorem cont_last_ge (c : Nat) : ∀ (pre : List Buf) (t : Buf) (o : Int), Cont c o (pre ++ [t]) → o ≤ t.off := by
+  intro pre
+  induction pre with
+  | nil => intro t o h; have := h.1; omega
+  | cons p0 pre ih => intro t o h; have := ih t (o + c) h.2.2; omega
+
+theorem writeBufs_skip (c : Nat) (p0 q : Buf) (rest : List Buf) (b : List Nat) (off : Int)
+    (h1 : ¬ (off - p0.off < (p0.b.length : Int))) :
+    writeBufs c (p0 :: q :: rest) b off = (writeBufs c (q :: rest) b off).map (p0 :: ·) := by
+  rw [writeBufs]; simp only [h1, if_false]
+
+/-- The `if off >= p.tail.off { pb = p.tail }` shortcut gives the same result as walking from the head. -/
+theorem writeBufs_tail (c : Nat) : ∀ (pre : List Buf) (t : Buf) (o : Int) (b : List Nat) (off : Int),
+    Cont c o (pre ++ [t]) → t.off ≤ off →
+    writeBufs c (pre ++ [t]) b off = (writeBufs c [t] b off).map (pre ++ ·) := by
+  intro pre
+  induction pre with
+  | nil => intro t o b off _ _; simp
+  | cons p0 pre ih =>
+    intro t o b off h ht
+    have hge := cont_last_ge c pre t (o + c) h.2.2
+    have h1 : ¬ (off - p0.off < (p0.b.length : Int)) := by have := h.1; have := h.2.1; omega
+    have e := ih t (o + c) b off h.2.2 ht
+    cases pre with
+    | nil =>
+      show writeBufs c (p0 :: t :: []) b off = _
+      rw [writeBufs_skip c p0 t [] b off h1]
+      cases writeBufs c [t] b off <;> simp
+    | cons p1 pre' =>
+      show writeBufs c (p0 :: p1 :: (pre' ++ [t])) b off = _
+      rw [writeBufs_skip c p0 p1 (pre' ++ [t]) b off h1]
+      rw [show p1 :: (pre' ++ [t]) = (p1 :: pre') ++ [t] from rfl, e]
+      cases writeBufs c [t] b off <;> simp
+
+theorem split_last : ∀ (l : List Buf), l ≠ [] →
+    ∃ pre t, l = pre ++ [t] ∧ l.getLast? = some t ∧ l.dropLast = pre := by
+  intro l
+  induction l with
+  | nil => intro h; exact absurd rfl h
+  | cons x r ih =>
+    intro _
+    cases r with
+    | nil => exact ⟨[], x, rfl, rfl, rfl⟩
+    | cons y r' =>
+      obtain ⟨pre, t, e1, e2, e3⟩ := ih (by simp)
+      refine ⟨x :: pre, t, by rw [e1]; rfl, by rw [List.getLast?_cons_cons]; exact e2, ?_⟩
+      rw [List.dropLast_cons_cons, e3]
+
+/-! ### specification and refinement -/
+
+/-- Specification state: the window and the last byte written at each offset. -/
+structure Spec where
+  start : Int
+  stop : Int
+  data : Int → Option Nat
+
+def Spec.empty : Spec := ⟨0, 0, fun _ => none⟩
+
+/-- `writeAt(b, off)`: bytes before the window start are dropped, the window end grows. -/
+def specWrite (s : Spec) (b : List Nat) (off : Int) : Spec :=
+  if off + b.length ≤ s.start then s
+  else ⟨s.start, if off + b.length > s.stop then off + b.length else s.stop,
+        fun x => if s.start ≤ x ∧ off ≤ x ∧ x < off + b.length then b[(x - off).toNat]? else s.data x⟩
+
+/-- `discardBefore(off)`: the window start moves, no stored byte changes. -/
+def specDiscard (s : Spec) (off : Int) : Spec :=
+  ⟨off, if s.stop > off then s.stop else off, s.data⟩
+
+/-- Representation invariant of the chunk chain. -/
+def Inv (c : Nat) (p : Pipe) : Prop :=
+  p.start ≤ p.stop ∧ ∃ o, Cont c o p.bufs ∧ (p.bufs = [] → p.start = p.stop) ∧
+    (p.bufs ≠ [] → o ≤ p.start ∧ p.start ≤ o + c ∧ p.stop ≤ cend o c p.bufs)
+
+/-- Refinement relation: same window, and every byte the specification knows inside the
+window is what the chunks hold at that offset. -/
+def Rel (p : Pipe) (s : Spec) : Prop :=
+  p.start = s.start ∧ p.stop = s.stop ∧
+  (∀ x v, s.start ≤ x → x < s.stop → s.data x = some v → byteAt p.bufs x = some v) ∧
+  (∀ x v, s.data x = some v → x < s.stop)
+
+theorem inv_empty (c : Nat) : Inv c empty := ⟨by decide, 0, trivial, fun _ => rfl, fun h => absurd rfl h⟩
+theorem rel_empty : Rel empty Spec.empty :=
+  ⟨rfl, rfl, fun _ _ _ _ h => by simp [Spec.empty] at h, fun _ _ h => by simp [Spec.empty] at h⟩
+
+/-- **writeAt refines the specification** (and never panics) from every reachable state. -/
+theorem writeAt_refines (c : Nat) (hc : 0 < c) (p : Pipe) (s : Spec) (b : List Nat) (off : Int)
+    (hinv : Inv c p) (hrel : Rel p s) :
+    (writeAt c p b off).2 = false ∧ Inv c (writeAt c p b off).1 ∧
+    Rel (writeAt c p b off).1 (specWrite s b off) := by
+  obtain ⟨hle, o, hcont, hnil, hne⟩ := hinv
+  obtain ⟨r1, r2, r3, r4⟩ := hrel
+  unfold writeAt specWrite
+  simp only
+  by_cases hskip : off + (b.length : Int) ≤ p.stop ∧ off + (b.length : Int) ≤ p.start
+  · have : off + (b.length : Int) ≤ s.start := by omega
+    rw [if_pos hskip, if_pos this]
+    exact ⟨rfl, ⟨hle, o, hcont, hnil, hne⟩, r1, r2, r3, r4⟩
+  · have hs' : ¬ (off + (b.length : Int) ≤ s.start) := by omega
+    rw [if_neg hskip, if_neg hs']
+    -- the trimmed data
+    generalize hb1 : (if off < p.start then b.drop (p.start - off).toNat else b) = b1
+    generalize hoff1 : (if off < p.start then p.start else off) = off1
+    have hb1len : off1 + (b1.length : Int) = off + b.length := by
+      subst hb1 hoff1; split
+      · simp only [List.length_drop]; omega
+      · rfl
+    have ho1 : p.start ≤ off1 ∧ off ≤ off1 ∧ (off1 = off ∨ off1 = p.start) := by subst hoff1; split <;> omega
+    have hb1get : ∀ x, off1 ≤ x → b1[(x - off1).toNat]? = b[(x - off).toNat]? := by
+      intro x hx; subst hb1 hoff1; split
+      · rw [List.getElem?_drop]; congr 1; omega
+      · rfl
+    -- the chain the loop starts from
+    generalize hbufs0 : (if p.bufs.isEmpty then [newBuf c p.start] else p.bufs) = bufs0
+    have h0 : ∃ o0, Cont c o0 bufs0 ∧ bufs0 ≠ [] ∧ o0 ≤ p.start ∧ p.start ≤ o0 + c ∧ p.stop ≤ cend o0 c bufs0 ∧
+        ∀ x v, byteAt p.bufs x = some v → byteAt bufs0 x = some v := by
+      subst hbufs0
+      cases hp : p.bufs with
+      | nil =>
+        have := hnil hp
+        refine ⟨p.start, ⟨rfl, by simp [newBuf], trivial⟩, by simp, by omega, by omega, ?_, ?_⟩
+        · simp only [List.isEmpty_nil, if_true]; have := cend_ge p.start c [newBuf c p.start]; omega
+        · intro x v h; simp [byteAt] at h
+      | cons h t =>
+        rw [hp] at hcont hne
+        obtain ⟨a1, a2, a3⟩ := hne (by simp)
+        exact ⟨o, hcont, by simp, a1, a2, by simpa using a3, fun _ _ h => by simpa using h⟩
+    obtain ⟨o0, c0, n0, a1, a2, a3, a4⟩ := h0
+    obtain ⟨l, hl, w1, w2, w3, w4, w5, w6⟩ := writeBufs_spec c hc bufs0 o0 b1 off1 c0 n0 (by omega)
+    -- both branches of the shortcut run the same loop
+    have hres : ∀ (stop' : Int), writeLoop c p.start stop' bufs0 b1 off1 = (⟨p.start, stop', l⟩, false) := by
+      intro stop'
+      obtain ⟨pre, tail, hsp, hlast, hdl⟩ := split_last bufs0 n0
+      unfold writeLoop
+      rw [hlast]
+      simp only
+      have hsplit : bufs0.dropLast ++ [tail] = bufs0 := by rw [hdl]; exact hsp.symm
+      by_cases ht : off1 ≥ tail.off
+      · rw [if_pos ht]
+        have := writeBufs_tail c bufs0.dropLast tail o0 b1 off1 (by rw [hsplit]; exact c0) ht
+        rw [hsplit, hl] at this
+        cases hw : writeBufs c [tail] b1 off1 with
+        | none => rw [hw] at this; simp at this
+        | some l2 => rw [hw] at this; simp at this; simp [this]
+      · rw [if_neg ht, hl]
+    rw [hres]
+    refine ⟨rfl, ⟨?_, o0, w1, fun h => absurd h w2, fun _ => ⟨a1, a2, ?_⟩⟩, ?_, ?_, ?_, ?_⟩
+    · show p.start ≤ (if off + (b.length : Int) > p.stop then off + (b.length : Int) else p.stop)
+      split <;> omega
+    · show (if off + (b.length : Int) > p.stop then off + (b.length : Int) else p.stop) ≤ cend o0 c l
+      split <;> omega
+    · exact r1
+    · show (if off + (b.length : Int) > p.stop then off + (b.length : Int) else p.stop) =
+        (if off + (b.length : Int) > s.stop then off + (b.length : Int) else s.stop)
+      rw [r2]
+    · intro x v hx1 hx2 hd
+      simp only at hx1 hx2 hd
+      show byteAt l x = some v
+      by_cases hin : s.start ≤ x ∧ off ≤ x ∧ x < off + (b.length : Int)
+      · rw [if_pos hin] at hd
+        rw [w5 x (by omega) (by omega), hb1get x (by omega)]; exact hd
+      · rw [if_neg hin] at hd
+        have hxs := r4 x v hd
+        exact w6 x v (by omega) (a4 x v (r3 x v hx1 hxs hd))
+    · intro x v hd
+      simp only at hd ⊢
+      by_cases hin : s.start ≤ x ∧ off ≤ x ∧ x < off + (b.length : Int)
+      · split <;> omega
+      · rw [if_neg hin] at hd
+        have := r4 x v hd
+        split <;> omega
+
+theorem dropBufs_pop (po : Int) (pbb : List Nat) (rest : List Buf) (off : Int)
+    (h : po + (pbb.length : Int) < off) : dropBufs (⟨po, pbb⟩ :: rest) off = dropBufs rest off := by
+  simp [dropBufs, Buf.stop, h]
+
+theorem dropBufs_keep (po : Int) (pbb : List Nat) (rest : List Buf) (off : Int)
+    (h : ¬ (po + (pbb.length : Int) < off)) : dropBufs (⟨po, pbb⟩ :: rest) off = ⟨po, pbb⟩ :: rest := by
+  simp [dropBufs, Buf.stop, h]
+
+theorem dropBufs_spec (c : Nat) (off : Int) : ∀ (bufs : List Buf) (o : Int), Cont c o bufs → o ≤ off →
+    ∃ o', Cont c o' (dropBufs bufs off) ∧ o' ≤ off ∧
+      cend o' c (dropBufs bufs off) = cend o c bufs ∧
+      (dropBufs bufs off ≠ [] → off ≤ o' + c) ∧
+      (dropBufs bufs off = [] → bufs = [] ∨ cend o c bufs < off) ∧
+      (∀ x, off ≤ x → byteAt (dropBufs bufs off) x = byteAt bufs x) := by
+  intro bufs
+  induction bufs with
+  | nil => intro o _ ho; exact ⟨o, trivial, ho, rfl, fun h => absurd rfl h, fun _ => Or.inl rfl, fun _ _ => rfl⟩
+  | cons pb rest ih =>
+    intro o hcont ho
+    obtain ⟨po, pbb⟩ := pb
+    obtain ⟨h1, h2, h3⟩ := hcont
+    simp only at h1 h2
+    subst h1
+    by_cases hp : po + (pbb.length : Int) < off
+    · rw [dropBufs_pop _ _ _ _ hp]
+      obtain ⟨o', i1, i2, i3, i4, i5, i6⟩ := ih (po + c) h3 (by omega)
+      refine ⟨o', i1, i2, by rw [i3, cend_cons], i4, ?_, ?_⟩
+      · intro h; right
+        rcases i5 h with e | e
+        · subst e; rw [cend_cons, cend_nil]; omega
+        · rw [cend_cons]; exact e
+      · intro x hx
+        rw [i6 x hx, byteAt_out _ _ _ _ (by omega)]
+    · rw [dropBufs_keep _ _ _ _ hp]
+      exact ⟨po, ⟨rfl, h2, h3⟩, ho, rfl, fun _ => by omega, fun h => by simp at h, fun _ _ => rfl⟩
+
+/-- **discardBefore refines the specification**: the window start advances, the bytes still in
+the window are unchanged. (`off ≥ start`: discarding only moves forward.) -/
+theorem discard_refines (c : Nat) (p : Pipe) (s : Spec) (off : Int)
+    (hinv : Inv c p) (hrel : Rel p s) (hoff : s.start ≤ off) :
+    Inv c (discardBefore p off) ∧ Rel (discardBefore p off) (specDiscard s off) := by
+  obtain ⟨hle, o, hcont, hnil, hne⟩ := hinv
+  obtain ⟨r1, r2, r3, r4⟩ := hrel
+  unfold discardBefore specDiscard
+  cases hb : p.bufs with
+  | nil =>
+    have := hnil hb
+    refine ⟨⟨?_, 0, ?_, ?_, ?_⟩, rfl, ?_, ?_, ?_⟩
+    · show off ≤ (if p.stop > off then p.stop else off); split <;> omega
+    · simp [dropBufs, Cont]
+    · intro _; show off = (if p.stop > off then p.stop else off); split <;> omega
+    · intro h; simp [dropBufs] at h
+    · show (if p.stop > off then p.stop else off) = (if s.stop > off then s.stop else off); rw [r2]
+    · intro x v hx1 hx2 hd
+      have := r3 x v (by simp only at hx1; omega) (r4 x v hd) hd
+      rw [hb] at this; simp [byteAt] at this
+    · intro x v hd; have := r4 x v hd; show x < (if s.stop > off then s.stop else off); split <;> omega
+  | cons h t =>
+    rw [hb] at hcont hne
+    obtain ⟨a1, a2, a3⟩ := hne (by simp)
+    obtain ⟨o', i1, i2, i3, i4, i5, i6⟩ := dropBufs_spec c off (h :: t) o hcont (by omega)
+    refine ⟨⟨?_, o', i1, ?_, ?_⟩, rfl, ?_, ?_, ?_⟩
+    · show off ≤ (if p.stop > off then p.stop else off); split <;> omega
+    · intro hnl
+      show off = (if p.stop > off then p.stop else off)
+      rcases i5 hnl with e | e
+      · simp at e
+      · split <;> omega
+    · intro hnn
+      refine ⟨i2, i4 hnn, ?_⟩
+      show (if p.stop > off then p.stop else off) ≤ cend o' c (dropBufs (h :: t) off)
+      have hge : o' + (c : Int) ≤ cend o' c (dropBufs (h :: t) off) := by
+        cases hd : dropBufs (h :: t) off with
+        | nil => exact absurd hd hnn
+        | cons d ds => rw [cend_cons]; exact cend_ge _ _ _
+      have := i4 hnn
+      split <;> omega
+    · show (if p.stop > off then p.stop else off) = (if s.stop > off then s.stop else off); rw [r2]
+    · intro x v hx1 hx2 hd
+      simp only at hx1 hx2 hd
+      show byteAt (dropBufs (h :: t) off) x = some v
+      rw [i6 x hx1]
+      have := r3 x v (by omega) (r4 x v hd) hd
+      rw [hb] at this; exact this
+    · intro x v hd; have := r4 x v hd; show x < (if s.stop > off then s.stop else off); split <;> omega
+
+/-! ### reading -/
+
+theorem readBufs_zero (l : List Buf) (off n : Int) (h : n ≤ 0) : readBufs l off n = some [] := by
+  have : ¬ (n > 0) := by omega
+  cases l <;> simp [readBufs, this]
+
+theorem readBufs_spec (c : Nat) (hc : 0 < c) : ∀ (bufs : List Buf) (o off n : Int),
+    Cont c o bufs → o ≤ off → 0 ≤ n → off + n ≤ cend o c bufs →
+    ∃ cs, readBufs bufs off n = some cs ∧ (cs.flatten.length : Int) = n ∧
+      ∀ i : Nat, (i : Int) < n → cs.flatten[i]? = byteAt bufs (off + i) := by
+  intro bufs
+  induction bufs with
+  | nil =>
+    intro o off n _ ho hn hb
+    rw [cend_nil] at hb
+    exact ⟨[], readBufs_zero _ _ _ (by omega), by simp; omega, fun i hi => by omega⟩
+  | cons pb rest ih =>
+    intro o off n hcont ho hn hb
+    obtain ⟨po, pbb⟩ := pb
+    obtain ⟨h1, h2, h3⟩ := hcont
+    simp only at h1 h2
+    subst h1
+    subst h2
+    rw [cend_cons] at hb
+    by_cases hpos : n > 0
+    · rw [readBufs]
+      simp only [Buf.stop, hpos, if_true]
+      by_cases hge : off ≥ po + (pbb.length : Int)
+      · simp only [hge, if_true]
+        obtain ⟨cs, e1, e2, e3⟩ := ih (po + (pbb.length : Int)) off n h3 hge hn hb
+        refine ⟨cs, e1, e2, fun i hi => ?_⟩
+        rw [e3 i hi, byteAt_out _ _ _ _ (by omega)]
+      · have hlt : ¬ (off < po) := by omega
+        simp only [hge, hlt, if_false]
+        -- the slice handed to the callback
+        generalize hb' : (if ((pbb.drop (off - po).toNat).length : Int) > n
+            then (pbb.drop (off - po).toNat).take n.toNat else pbb.drop (off - po).toNat) = b'
+        have hm : b' = (pbb.drop (off - po).toNat).take b'.length ∧
+            (b'.length : Int) = (if (pbb.length : Int) - (off - po) > n then n else (pbb.length : Int) - (off - po)) := by
+          subst hb'
+          simp only [List.length_drop]
+          split
+          · rename_i hh
+            have : ¬ ((pbb.length : Int) - (off - po) > n) → False := by omega
+            constructor
+            · simp
+            · simp only [List.length_take, List.length_drop]; split <;> omega
+          · rename_i hh
+            constructor
+            · rw [List.take_of_length_le]; simp
+            · simp only [List.length_drop]; split <;> omega
+        obtain ⟨hm1, hm2⟩ := hm
+        have hbget : ∀ i : Nat, i < b'.length → b'[i]? = byteAt (⟨po, pbb⟩ :: rest) (off + i) := by
+          intro i hi
+          have hin : po ≤ off + (i : Int) ∧ off + (i : Int) < po + (pbb.length : Int) := by
+            constructor
+            · omega
+            · split at hm2 <;> omega
+          rw [byteAt_in _ _ _ _ hin, hm1, List.getElem?_take, if_pos hi, List.getElem?_drop]
+          congr 1; omega
+        by_cases hdone : n - (b'.length : Int) ≤ 0
+        · rw [readBufs_zero _ _ _ hdone]
+          refine ⟨[b'], rfl, ?_, ?_⟩
+          · simp only [List.flatten_cons, List.flatten_nil, List.append_nil]; split at hm2 <;> omega
+          · intro i hi
+            simp only [List.flatten_cons, List.flatten_nil, List.append_nil]
+            exact hbget i (by split at hm2 <;> omega)
+        · have hfull : (b'.length : Int) = (pbb.length : Int) - (off - po) := by split at hm2 <;> omega
+          obtain ⟨cs, e1, e2, e3⟩ := ih (po + (pbb.length : Int)) (off + (b'.length : Int)) (n - (b'.length : Int)) h3
+            (by omega) (by omega) (by omega)
+          rw [e1]
+          refine ⟨b' :: cs, rfl, ?_, ?_⟩
+          · simp only [List.flatten_cons, List.length_append]; push_cast; omega
+          · intro i hi
+            simp only [List.flatten_cons]
+            by_cases hi' : i < b'.length
+            · rw [List.getElem?_append_left hi']; exact hbget i hi'
+            · rw [List.getElem?_append_right (by omega), e3 (i - b'.length) (by omega),
+                byteAt_out _ _ _ _ (by omega)]
+              congr 1; omega
+    · exact ⟨[], readBufs_zero _ _ _ (by omega), by simp; omega, fun i hi => by omega⟩
+
+/-- **read/copy inside the window**: no panic, exactly `n` bytes, byte `i` is the byte the chunks
+hold at offset `off + i`. -/
+theorem read_in_window (c : Nat) (hc : 0 < c) (p : Pipe) (off n : Int) (hinv : Inv c p)
+    (h1 : p.start ≤ off) (h2 : 0 ≤ n) (h3 : off + n ≤ p.stop) :
+    ∃ cs, read p off n = some cs ∧ (cs.flatten.length : Int) = n ∧
+      ∀ i : Nat, (i : Int) < n → cs.flatten[i]? = byteAt p.bufs (off + i) := by
+  obtain ⟨hle, o, hcont, hnil, hne⟩ := hinv
+  unfold Model.Pipe.read
+  rw [if_neg (by omega)]
+  cases hb : p.bufs with
+  | nil =>
+    have := hnil hb
+    exact ⟨[], readBufs_zero _ _ _ (by omega), by simp; omega, fun i hi => by omega⟩
+  | cons h t =>
+    rw [hb] at hcont hne
+    obtain ⟨a1, a2, a3⟩ := hne (by simp)
+    exact readBufs_spec c hc (h :: t) o off n hcont (by omega) h2 (by omega)
+
+/-- **C30, read side**: inside the live window `read`/`copy` return exactly the bytes most
+recently written (those the specification knows), whatever the chunking. -/
+theorem read_returns_written (c : Nat) (hc : 0 < c) (p : Pipe) (s : Spec) (off n : Int)
+    (hinv : Inv c p) (hrel : Rel p s) (h1 : s.start ≤ off) (h2 : 0 ≤ n) (h3 : off + n ≤ s.stop) :
+    ∃ cs, read p off n = some cs ∧ (cs.flatten.length : Int) = n ∧
+      ∀ (i : Nat) (v : Nat), (i : Int) < n → s.data (off + i) = some v → cs.flatten[i]? = some v := by
+  obtain ⟨r1, r2, r3, r4⟩ := hrel
+  obtain ⟨cs, e1, e2, e3⟩ := read_in_window c hc p off n hinv (by omega) h2 (by omega)
+  exact ⟨cs, e1, e2, fun i v hi hd => by rw [e3 i hi]; exact r3 _ v (by omega) (by omega) hd⟩
+
+/-- Reading from before the window start panics (the explicit check in `read`). -/
+theorem read_before_start_panics (p : Pipe) (off n : Int) (h : off < p.start) : read p off n = none := by
+  unfold Model.Pipe.read; rw [if_pos h]
+
+/-- **peek**: never panics for `n ≥ 0`, returns at most `n` bytes, and they are the bytes held at the
+window start onwards (a possibly short — even empty — prefix: it stops at the end of the head chunk). -/
+theorem peek_prefix (c : Nat) (p : Pipe) (n : Int) (hinv : Inv c p) (hn : 0 ≤ n) :
+    ∃ bs, peek p n = some bs ∧ (bs.length : Int) ≤ n ∧
+      ∀ i : Nat, i < bs.length → bs[i]? = byteAt p.bufs (p.start + i) := by
+  obtain ⟨hle, o, hcont, hnil, hne⟩ := hinv
+  unfold peek
+  cases hb : p.bufs with
+  | nil => exact ⟨[], rfl, by simpa using hn, fun i hi => by simp at hi⟩
+  | cons h t =>
+    rw [hb] at hcont hne
+    obtain ⟨a1, a2, a3⟩ := hne (by simp)
+    obtain ⟨po, pbb⟩ := h
+    obtain ⟨c1, c2, c3⟩ := hcont
+    simp only at c1 c2 ⊢
+    subst c1
+    have hk : ¬ (p.start - po < 0 ∨ p.start - po > (pbb.length : Int)) := by omega
+    have hn' : ¬ (n < 0) := by omega
+    rw [if_neg hk, if_neg hn']
+    refine ⟨_, rfl, ?_, ?_⟩
+    · simp only [List.length_take, List.length_drop]; omega
+    · intro i hi
+      simp only [List.length_take, List.length_drop] at hi
+      have hin : po ≤ p.start + (i : Int) ∧ p.start + (i : Int) < po + (pbb.length : Int) := by omega
+      rw [byteAt_in _ _ _ _ hin, List.getElem?_take, if_pos (by simp only [List.length_drop]; omega),
+        List.getElem?_drop]
+      congr 1; omega
+
+/-! ### all histories -/
+
+inductive Op where
+  | write (b : List Nat) (off : Int)
+  | discard (off : Int)
+
+def step (c : Nat) (p : Pipe) : Op → Pipe
+  | .write b off => (writeAt c p b off).1
+  | .discard off => discardBefore p off
+
+def specStep (s : Spec) : Op → Spec
+  | .write b off => specWrite s b off
+  | .discard off => specDiscard s off
+
+def run (c : Nat) (ops : List Op) (p : Pipe) : Pipe := ops.foldl (step c) p
+def specRun (ops : List Op) (s : Spec) : Spec := ops.foldl specStep s
+
+/-- Contract of a history: discards only move the window start forward. Writes are unrestricted
+(any offset, any length, overlapping, out of order, before the window). -/
+def Valid : List Op → Spec → Prop
+  | [], _ => True
+  | .write b off :: ops, s => Valid ops (specWrite s b off)
+  | .discard off :: ops, s => s.start ≤ off ∧ Valid ops (specDiscard s off)
+
+/-- No `writeAt` of the history panics. -/
+def NoPanic (c : Nat) : List Op → Pipe → Prop
+  | [], _ => True
+  | .write b off :: ops, p => (writeAt c p b off).2 = false ∧ NoPanic c ops (writeAt c p b off).1
+  | .discard off :: ops, p => NoPanic c ops (discardBefore p off)
+
+theorem history_refines (c : Nat) (hc : 0 < c) (ops : List Op) : ∀ (p : Pipe) (s : Spec),
+    Inv c p → Rel p s → Valid ops s →
+    NoPanic c ops p ∧ Inv c (run c ops p) ∧ Rel (run c ops p) (specRun ops s) := by
+  induction ops with
+  | nil => intro p s hi hr _; exact ⟨trivial, hi, hr⟩
+  | cons op ops ih =>
+    intro p s hi hr hv
+    cases op with
+    | write b off =>
+      obtain ⟨w1, w2, w3⟩ := writeAt_refines c hc p s b off hi hr
+      obtain ⟨j1, j2, j3⟩ := ih (writeAt c p b off).1 (specWrite s b off) w2 w3 hv
+      exact ⟨⟨w1, j1⟩, j2, j3⟩
+    | discard off =>
+      obtain ⟨d1, d2⟩ := discard_refines c p s off hi hr hv.1
+      obtain ⟨j1, j2, j3⟩ := ih (discardBefore p off) (specDiscard s off) d1 d2 hv.2
+      exact ⟨j1, j2, j3⟩
+
+/-- **C30 over all histories**: after any sequence of writes (any offsets, lengths, order, chunk
+alignment) and forward discards starting from the empty pipe, nothing has panicked, the window is
+the specification's window, and every in-window `read`/`copy` returns, at each offset that was
+written, the byte most recently written there. -/
+theorem history_correct (c : Nat) (hc : 0 < c) (ops : List Op) (hv : Valid ops Spec.empty)
+    (off n : Int) (h1 : (specRun ops Spec.empty).start ≤ off) (h2 : 0 ≤ n)
+    (h3 : off + n ≤ (specRun ops Spec.empty).stop) :
+    NoPanic c ops empty ∧
+    (run c ops empty).start = (specRun ops Spec.empty).start ∧
+    (run c ops empty).stop = (specRun ops Spec.empty).stop ∧
+    ∃ cs, read (run c ops empty) off n = some cs ∧ (cs.flatten.length : Int) = n ∧
+      ∀ (i : Nat) (v : Nat), (i : Int) < n → (specRun ops Spec.empty).data (off + i) = some v →
+        cs.flatten[i]? = some v := by
+  obtain ⟨j1, j2, j3⟩ := history_refines c hc ops empty Spec.empty (inv_empty c) rel_empty hv
+  exact ⟨j1, j3.1, j3.2.1, read_returns_written c hc _ _ off n j2 j3 h1 h2 h3⟩
+
+/-- The same at the chunk size regenerated from quic/pipe.go (T-tie instance). -/
+theorem history_correct_gen (ops : List Op) (hv : Valid ops Spec.empty)
+    (off n : Int) (h1 : (specRun ops Spec.empty).start ≤ off) (h2 : 0 ≤ n)
+    (h3 : off + n ≤ (specRun ops Spec.empty).stop) :
+    NoPanic NetVerif.Gen.C30.pipebufSize ops empty ∧
+    ∃ cs, read (run NetVerif.Gen.C30.pipebufSize ops empty) off n = some cs ∧ (cs.flatten.length : Int) = n ∧
+      ∀ (i : Nat) (v : Nat), (i : Int) < n → (specRun ops Spec.empty).data (off + i) = some v →
+        cs.flatten[i]? = some v := by
+  obtain ⟨a, _, _, d⟩ := history_correct _ gen_chunk_pos ops hv off n h1 h2 h3
+  exact ⟨a, d⟩
+
+/-- Discarding does not change what the specification stores (so, by refinement, the bytes still
+in the window are unchanged). -/
+theorem specDiscard_data (s : Spec) (off : Int) : (specDiscard s off).data = s.data := rfl
+
+/-- The last write wins; other offsets keep their byte. -/
+theorem specWrite_data (s : Spec) (b : List Nat) (off x : Int) (h : ¬ (off + b.length ≤ s.start)) :
+    (specWrite s b off).data x =
+      if s.start ≤ x ∧ off ≤ x ∧ x < off + b.length then b[(x - off).toNat]? else s.data x := by
+  unfold specWrite; rw [if_neg h]
+
+/-! ### non-vacuity and the behaviour outside the contract -/
+
+-- chunk size 4: a write across three chunks, a partial discard, an overwrite across a boundary
+example : (writeAt 4 empty [1,2,3,4,5,6,7,8,9] 0).1 =
+    ⟨0, 9, [⟨0, [1,2,3,4]⟩, ⟨4, [5,6,7,8]⟩, ⟨8, [9,0,0,0]⟩]⟩ := by decide
+example : read (discardBefore (writeAt 4 empty [1,2,3,4,5,6,7,8,9] 0).1 3) 3 6 =
+    some [[4], [5,6,7,8], [9]] := by decide
+example : read (writeAt 4 (writeAt 4 empty [1,2,3,4,5,6,7,8,9] 0).1 [50,60] 3).1 2 4 =
+    some [[3, 50], [60, 6]] := by decide
+example : Valid [.write [1,2,3] 5, .discard 6, .write [9] 2, .write [7,7] 7] Spec.empty := by
+  refine ⟨by decide, trivial⟩
+-- a read past the window end does NOT panic while it stays inside the allocated tail chunk …
+example : read (writeAt 4 empty [1,2] 0).1 0 4 = some [[1,2,0,0]] := by decide
+-- … and panics beyond it
+example : read (writeAt 4 empty [1,2] 0).1 0 5 = none := by decide
+-- peek can return nothing although the window is not empty (head chunk exhausted exactly)
+example : peek (discardBefore (writeAt 4 empty [1,2,3,4,5] 0).1 4) 1 = some [] := by decide
+
 end NetVerif.Proofs.C30
